@@ -77,7 +77,7 @@ def _corpus():
 
 def cases(seed, tier):
     rng = random.Random(f"C01:{seed}")
-    n = 500 if tier == "quick" else 30000
+    n = 1200 if tier == "quick" else 30000
     out = _corpus()
     for i in range(n):
         r = rng.random()
